@@ -445,7 +445,7 @@ func vCheckFidelityFrom(rc *runCtx, x *xferWorld, rep *xferReport, before vSnap,
 	}
 	// nothing else appeared at top level, and nothing that existed before vanished
 	for _, k := range vTopLevel(after) {
-		if _, was := before[k]; !was && !seen[k] && !partial {
+		if _, was := before[k]; !was && !seen[k] && !partial && !o.othersNames[k] {
 			rc.violate("extra", "C01:extra", "unexpected new entry %q in destination (reported %q)", k, names)
 			return
 		}
